@@ -11,6 +11,9 @@ from .scratch import Scratch, run_rule
 
 # (id, properties that must report it, file, old, new, description)
 MUTANTS = [
+    ('wilson-upper-by-mirror', ['C02'], 'src/proportion.rs', '        Confidence::TwoSided(_) => Interval::new(mean - span, mean + span).map_err(|e| e.into()),',
+     '        Confidence::TwoSided(_) => Interval::new(mean - span, 1. - ((n_f + z_sq / 2.) / (n + z_sq) - span)).map_err(|e| e.into()),',
+     'upper Wilson root obtained "by symmetry" as 1 - (mirror lower root): equal over the reals, leading-order cancellation for rare events (seed C02-l)'),
     ('variance-sum-squared', ['C01', 'C04', 'C16'], 'src/mean.rs', '(self.sum_sq.value() - mean * self.sum.value()) / F::from(self.count - 1).unwrap()',
      '(self.sum_sq.value() - self.sum.value() * self.sum.value() / F::from(self.count).unwrap()) / F::from(self.count - 1).unwrap()',
      'variance through the squared sum: (data^2, n^2) intermediate, -inf clamped to a zero variance (seeds C01-k / C16-k)'),
